@@ -12,8 +12,9 @@ import json
 
 from . import core
 
-JUNK_POOL = [" ", "(", ")", "1", "2", "0", "_", ",", "\t", ".", "-", "+", "*", "/", "[", "]", ">", "'", '"', "#", "  "]
-MODEL_ALPHABET = [chr(c) for c in range(32, 127)] + ["\t", "\n", "≤", "…"]
+JUNK_POOL = [" ", "(", ")", "1", "2", "0", "_", ",", "\t", ".", "-", "+", "*", "/", "[", "]", ">", "'", '"', "#", "  ",
+             "\n", "\r", "\x0b", "\x0c", "\x00", "\x07", "\x1b", "\x1c", "\x1d", "\x1e", "\x1f", "\x7f", "@", "~", "\\"]
+MODEL_ALPHABET = [chr(c) for c in range(0, 128)] + ["≤", "…"]
 
 
 def real_call(np_mod, cs, s):
@@ -100,9 +101,10 @@ def run(ctx):
         for (k, style), r in zip(meta, rendered):
             assert r["junkOk"] and r["balanced"], (k, style)
             pre, post, neg = rng.choice(decorations)
-            # junk directly after a leading "!" or around "is"/"not" is outside what the manual spells out
-            # except for spaces; keep the decoration only when the adjacent junk is blank or empty.
-            if (pre and style["junk"][0].strip(" ") != "") or (post and style["junk"][7].strip(" ") != ""):
+            # the theorems (C16_formula_decorated…) cover ANY junk next to a decoration, control characters included:
+            # so does the correspondence (one case in five keeps the former restriction to blank junk, for the density
+            # of plainly readable spellings)
+            if rng.random() < 0.2 and ((pre and style["junk"][0].strip(" ") != "") or (post and style["junk"][7].strip(" ") != "")):
                 pre, post, neg = "", "", False
             cases.append(("formula×junk×ops×index×case×decoration", pre + r["s"] + post, ("ok", k, neg), False))
             ctx.dist("formula:deco=" + repr((pre, post)))
